@@ -244,6 +244,8 @@ def show_compound(cp):
             s += ':has(' + ', '.join(('' if comb == ' ' else comb + ' ') + show_complex(cx) for comb, cx in ps[1]) + ')'
         elif k == 'contains':
             s += (':-soup-contains-own(' if ps[1] else ':-soup-contains(') + ', '.join(q(t) for t in ps[2]) + ')'
+        elif k == 'lang':
+            s += ':lang(' + ', '.join(q(t) for t in ps[1]) + ')'
         else:
             s += ':' + k
     return s
@@ -302,7 +304,15 @@ class AGen:
         pool = ['kw'] * 4 + ['nth'] * 3 + (['logic'] * 5 if depth > 0 else [])
         if 'contains' in self.feats:
             pool += ['contains'] * 5 + ['kw_empty'] * 2
+        if 'lang' in self.feats:
+            pool += ['lang'] * 10
         k = r.choice(pool)
+        if k == 'lang':
+            RANGES = ['en', 'de', 'de-DE', '*', '*-DE', 'de-*', 'de-*-DE', 'en-US', '', 'fr', 'de-Latn', 'de-*-1996', '*-x',
+                      'de-x', 'en-*', 'EN', 'zh-*-CN', 'en-a', 'de-DE-*', '*-*', 'de-DE-1996', 'de-Latn-DE', 'en-a-bbb',
+                      'fr-x-private', 'de-1996', '*-1996', 'en-bbb', 'de-x-mundart', 'de-mundart', 'es', 'zh-Hant', 'zh-CN',
+                      '*-*-*', 'de-*-*', 'e', 'en-', '-en', 'en--US', 'fr-CH', 'en-GB', 'de-CH']
+            return ('lang', [r.choice(RANGES) for _ in range(r.choice([1, 1, 1, 2, 3]))])
         if k == 'kw':
             return (r.choice(KEYWORDS),)
         if k == 'kw_empty':
